@@ -140,6 +140,8 @@ class Result:
             print("KNOWN-FINDING: property=%s %s (%d events)" % (self.pid, fid, n))
         for ln in lines:
             print(ln)
+        for c, n in sorted(self.notes.get("binding_mismatches", {}).items()):
+            print("  binding mismatch (model vs code, not a property violation) %s : %d events" % (c, n))
         for cls, n in sorted(self.notes.get("violation_classes", {}).items()):
             print("  violation class %s : %d events" % (cls, n))
         print("%s %s: %d model states, %d events judged, %d violations, %.0fs" % (
